@@ -45,12 +45,23 @@ func genProducer(r *fw.Rand, p, nEvents, n int, ls *[]*linfo) *producer {
 	pr := &producer{id: p}
 	var mine []ev    // dispatched by this producer
 	var own []*linfo // listeners this producer added
+	usedPair := map[string]bool{}
 	seq := 0
 	for len(pr.events) < nEvents {
 		switch r.Weighted([]int{52, 18, 9, 7, 3}) {
 		case 0:
 			e := ev{MB: r.Pick(mailboxes), ID: fmt.Sprintf("p%d-%d", p, seq)}
 			seq++
+			if len(mine) > 0 && r.Chance(1, 3) {
+				// Ids are unique per mailbox only (the memory store numbers every mailbox 1, 2,
+				// 3...): reuse the id of an earlier message in ANOTHER mailbox.
+				t := mine[len(mine)-1-r.Intn(minInt(len(mine), maxInt(1, n)))]
+				other := mailboxes[(indexOf(mailboxes, t.MB)+1+r.Intn(len(mailboxes)-1))%len(mailboxes)]
+				if !usedPair[other+"\x00"+t.ID] {
+					e = ev{MB: other, ID: t.ID}
+				}
+			}
+			usedPair[e.MB+"\x00"+e.ID] = true
 			mine = append(mine, e)
 			pr.events = append(pr.events, e)
 			pr.ops = append(pr.ops, hop{kind: opDispatch, e: e})
